@@ -90,9 +90,15 @@ class _Helper:
             return False
         if any(isinstance(d, ast.Name) and d.id in ("property", "classmethod", "cache", "cached_property") or isinstance(d, ast.Attribute) for d in n.decorator_list):
             return False
+        own = {a.arg for a in (*n.args.posonlyargs, *n.args.args, *n.args.kwonlyargs)} | {x.id for x in ast.walk(n) if isinstance(x, ast.Name) and isinstance(x.ctx, ast.Store)}
         for x in ast.walk(n):
-            if isinstance(x, ast.Yield | ast.YieldFrom | ast.Await | ast.Nonlocal | ast.Global | ast.Lambda) or (isinstance(x, ast.FunctionDef) and x is not n):
+            if isinstance(x, ast.Yield | ast.YieldFrom | ast.Await | ast.Nonlocal | ast.Global) or (isinstance(x, ast.FunctionDef) and x is not n):
                 return False
+            if isinstance(x, ast.Lambda):
+                # a lambda is fine as long as its own parameters do not shadow a name of the helper (substitution is by name)
+                la = x.args
+                if la.vararg or la.kwarg or {a.arg for a in (*la.posonlyargs, *la.args, *la.kwonlyargs)} & own:
+                    return False
             if isinstance(x, ast.Call) and isinstance(x.func, ast.Attribute) and x.func.attr == n.name:
                 return False  # (possibly) recursive
             if isinstance(x, ast.Call) and isinstance(x.func, ast.Name) and x.func.id == n.name:
@@ -146,6 +152,136 @@ class _Beta(ast.NodeTransformer):
             mapping = {p.arg: a for p, a in zip(f.args.args, n.args)}
             return ast.copy_location(_Subst(mapping, {}).visit(copy.deepcopy(f.body)), n)
         return n
+
+
+def _listify_generators(tree: ast.Module, modname: str, baseline) -> int:
+    """A *new* generator helper whose body only yields (no `yield from`, no value taken from `yield`, no return) and that is
+    consumed whole — list(G(...)), tuple(G(...)), sorted(G(...)), sum(G(...)), "".join(G(...)), [*G(...)] — is given a
+    list-building twin  G__aslist  (yield X -> acc.append(X); return acc); the consuming call sites call the twin, which the
+    inliner then treats like any other value helper.  list(G(a)) == G__aslist(a) for every generator without side effects
+    between its yields that the consumer could observe (the consumer here takes everything before doing anything else)."""
+    if baseline is None:
+        return 0
+    gens = {}
+
+    def scan(owner_body, cls_name):
+        for m in owner_body:
+            if not isinstance(m, ast.FunctionDef):
+                continue
+            q = f"{modname}.{cls_name + '.' if cls_name else ''}{m.name}"
+            if q in baseline or m.decorator_list and any(not (isinstance(d, ast.Name) and d.id == "staticmethod") for d in m.decorator_list):
+                continue
+            ys = [x for x in ast.walk(m) if isinstance(x, ast.Yield)]
+            if not ys or any(isinstance(x, ast.YieldFrom | ast.Await | ast.Try) for x in ast.walk(m)):
+                continue
+            if any(isinstance(x, ast.Return) for x in ast.walk(m)):
+                continue
+            # every Yield must be a whole expression statement
+            stmt_yields = []
+            for st in ast.walk(m):
+                for fld in ("body", "orelse", "finalbody"):
+                    blk = getattr(st, fld, None)
+                    if isinstance(blk, list):
+                        stmt_yields.extend(b.value for b in blk if isinstance(b, ast.Expr) and isinstance(b.value, ast.Yield))
+            ok = True
+            if not ok or len(stmt_yields) != len(ys) or any(y.value is None for y in ys):
+                continue
+            gens[(cls_name, m.name)] = (m, owner_body)
+
+    scan(tree.body, None)
+    for c in tree.body:
+        if isinstance(c, ast.ClassDef):
+            scan(c.body, c.name)
+    if not gens:
+        return 0
+    made = {}
+
+    def twin(key):
+        if key in made:
+            return made[key]
+        m, owner_body = gens[key]
+        acc = f"acc__{m.name}"
+        t = copy.deepcopy(m)
+        t.name = m.name + "__aslist"
+
+        class Y(ast.NodeTransformer):
+            def visit_Expr(self, n):
+                if isinstance(n.value, ast.Yield):
+                    call = ast.Call(func=ast.Attribute(value=ast.Name(id=acc, ctx=ast.Load()), attr="append", ctx=ast.Load()), args=[n.value.value], keywords=[])
+                    return ast.copy_location(ast.Expr(value=call), n)
+                return n
+
+        t = Y().visit(t)
+        body = t.body
+        doc = body[:1] if body and isinstance(body[0], ast.Expr) and isinstance(body[0].value, ast.Constant) else []
+        t.body = doc + [ast.Assign(targets=[ast.Name(id=acc, ctx=ast.Store())], value=ast.List(elts=[], ctx=ast.Load()))] + body[len(doc):] + [ast.Return(value=ast.Name(id=acc, ctx=ast.Load()))]
+        ast.fix_missing_locations(ast.copy_location(t, m))
+        for x in ast.walk(t):
+            if not hasattr(x, "lineno"):
+                ast.copy_location(x, m)
+        owner_body.insert(owner_body.index(m) + 1, t)
+        made[key] = t
+        return t
+
+    cnt = 0
+    CONSUMERS = ("list", "tuple", "sorted", "sum", "set", "frozenset", "max", "min", "any", "all")
+
+    def gen_call(e, cls_name):
+        if isinstance(e, ast.Call):
+            f = e.func
+            if isinstance(f, ast.Name) and (None, f.id) in gens:
+                return (None, f.id)
+            if isinstance(f, ast.Attribute) and isinstance(f.value, ast.Name) and f.value.id in ("self", "cls") and (cls_name, f.attr) in gens:
+                return (cls_name, f.attr)
+            if isinstance(f, ast.Attribute) and isinstance(f.value, ast.Name) and (f.value.id, f.attr) in gens:
+                return (f.value.id, f.attr)
+        return None
+
+    def rewrite(fn, cls_name):
+        nonlocal cnt
+        for c in ast.walk(fn):
+            if isinstance(c, ast.Call) and c.args:
+                is_consumer = (isinstance(c.func, ast.Name) and c.func.id in CONSUMERS) or (isinstance(c.func, ast.Attribute) and c.func.attr == "join")
+                if is_consumer:
+                    k = gen_call(c.args[0], cls_name)
+                    if k is not None:
+                        twin(k)
+                        g = c.args[0]
+                        if isinstance(g.func, ast.Name):
+                            g.func.id = g.func.id + "__aslist"
+                        else:
+                            g.func.attr = g.func.attr + "__aslist"
+                        cnt += 1
+            if isinstance(c, ast.Starred) and gen_call(c.value, cls_name) is not None and isinstance(getattr(c, "ctx", None), ast.Load):
+                k = gen_call(c.value, cls_name)
+                twin(k)
+                g = c.value
+                if isinstance(g.func, ast.Name):
+                    g.func.id += "__aslist"
+                else:
+                    g.func.attr += "__aslist"
+                cnt += 1
+
+    for top in list(tree.body):
+        if isinstance(top, ast.FunctionDef):
+            rewrite(top, None)
+        elif isinstance(top, ast.ClassDef):
+            for m in list(top.body):
+                if isinstance(m, ast.FunctionDef) and not m.name.endswith("__aslist"):
+                    rewrite(m, top.name)
+    # `list(x)` of something that already is the twin's list: list(G__aslist(a)) -> G__aslist(a)
+    class Unwrap(ast.NodeTransformer):
+        def visit_Call(self, c):
+            self.generic_visit(c)
+            if isinstance(c.func, ast.Name) and c.func.id == "list" and len(c.args) == 1 and not c.keywords and isinstance(c.args[0], ast.Call):
+                f = c.args[0].func
+                nm = f.id if isinstance(f, ast.Name) else f.attr if isinstance(f, ast.Attribute) else ""
+                if nm.endswith("__aslist"):
+                    return c.args[0]
+            return c
+
+    Unwrap().visit(tree)
+    return cnt
 
 
 class Inliner:
@@ -391,6 +527,29 @@ class Inliner:
                         self.counter_inl += 1
                         self.inlined.append(h.qual)
                         return hoisted + self._block(stmts, cls_name, fn)
+        # a, b, c = helper(...) where the helper returns a tuple of its (distinct) locals: those locals *are* a, b, c
+        if isinstance(s, ast.Assign) and len(s.targets) == 1 and isinstance(s.targets[0], ast.Tuple) and all(isinstance(e, ast.Name) for e in s.targets[0].elts) and isinstance(s.value, ast.Call):
+            h, recv = self._match(s.value, cls_name)
+            if h is not None and h.node is not fn and isinstance(h.ret, ast.Tuple) and len(h.ret.elts) == len(s.targets[0].elts) and all(isinstance(e, ast.Name) for e in h.ret.elts):
+                rl = [e.id for e in h.ret.elts]
+                tl = [e.id for e in s.targets[0].elts]
+                locs = h.locals_()
+                body_names = {x.id for st in h.body for x in ast.walk(st) if isinstance(x, ast.Name)}
+                if len(set(rl)) == len(rl) and len(set(tl)) == len(tl) and all(r_ in locs for r_ in rl) and not any(t_ in body_names and t_ not in rl for t_ in tl):
+                    s.value.args = [visit_expr(a) for a in s.value.args]
+                    b = self._bind(h, s.value, recv)
+                    if b is not None:
+                        mapping, pre = b
+                        self.counter += 1
+                        rename = {v: f"{v}__{h.node.name}{self.counter}" for v in locs}
+                        rename.update(dict(zip(rl, tl)))
+                        ok_params = all(a is not None for a in mapping.values())
+                        if ok_params:
+                            sub = _Subst(mapping, rename)
+                            stmts = [_set_loc(sub.visit(copy.deepcopy(x)), s.value) for x in h.stmts]
+                            pre = [_set_loc(x, s.value) for x in pre]
+                            self.inlined.append(h.qual)
+                            return hoisted + self._block(pre + stmts, cls_name, fn)
         # calls inside comprehensions / lambdas are not inlined (evaluated lazily / repeatedly)
         if isinstance(s, ast.Expr) and isinstance(s.value, ast.Call):
             h, recv = self._match(s.value, cls_name)
@@ -428,7 +587,12 @@ class Inliner:
 
 def inline_new_helpers(tree: ast.Module, modname: str) -> list[str]:
     """Inline simple helpers that are not part of the pinned inventory.  -> qualnames inlined"""
-    inl = Inliner(tree, modname, _baseline())
+    base = _baseline()
+    try:
+        _listify_generators(tree, modname, base)
+    except RecursionError:
+        pass
+    inl = Inliner(tree, modname, base)
     inl.run()
     return inl.inlined
 
@@ -613,6 +777,28 @@ def normalise_idioms(tree) -> int:
                 if new is not None:
                     blk[k] = new
                     n += 1
+            # if (v := w): BODY   with w a plain name   ->   BODY with v replaced by w  (v bound nowhere else, w not re-bound
+            # in BODY / the else branch): a walrus that only renames
+            for k, st in enumerate(list(blk)):
+                if isinstance(st, ast.If) and isinstance(st.test, ast.NamedExpr) and isinstance(st.test.value, ast.Name) and isinstance(st.test.target, ast.Name):
+                    v, w = st.test.target.id, st.test.value.id
+                    owner = next((f for f in ast.walk(tree) if isinstance(f, ast.FunctionDef) and any(x is st for x in ast.walk(f))), None)
+                    if owner is None:
+                        continue
+                    v_stores = [x for x in ast.walk(owner) if isinstance(x, ast.Name) and x.id == v and isinstance(x.ctx, ast.Store)]
+                    v_loads_outside = [x for x in ast.walk(owner) if isinstance(x, ast.Name) and x.id == v and isinstance(x.ctx, ast.Load) and not any(x is y for y in ast.walk(st))]
+                    w_stores_inside = [x for b in [*st.body, *st.orelse] for x in ast.walk(b) if isinstance(x, ast.Name) and x.id == w and isinstance(x.ctx, ast.Store)]
+                    if len(v_stores) == 1 and not v_loads_outside and not w_stores_inside:
+                        class R(ast.NodeTransformer):
+                            def visit_Name(self, x):
+                                if x.id == v and isinstance(x.ctx, ast.Load):
+                                    return ast.copy_location(ast.Name(id=w, ctx=ast.Load()), x)
+                                return x
+
+                        st.test = ast.copy_location(ast.Name(id=w, ctx=ast.Load()), st.test)
+                        st.body = [R().visit(b) for b in st.body]
+                        st.orelse = [R().visit(b) for b in st.orelse]
+                        n += 1
             k = 0
             while k < len(blk):
                 two = _span_unpack(blk[k])
